@@ -246,6 +246,52 @@ def check_relabel(F, st, P3):
             relabel_q.add(blk.i)
         else:
             partial.append((blk, ssrc + ('' if only_none_exit else ' (loop left early)')))
+    # the relabelling done by a private helper that is given the message in flight and / or the queue
+    # (`relabel_msgs_after_merge(&mut msg, &mut buffered_msgs, from, to)`): summarised from the helper's body
+    for blk in body.calls():
+        t = blk.term
+        H = F.get(t.callee.resolved) if t.callee.resolved else F.get(t.callee.path)
+        if H is None or H.kind == 'closure' or H.crate != 'lib' or H.path == body.path or not H.path.startswith('adlt::lifecycle::'):
+            continue
+        msg_params = [i for i, ty in enumerate(H.arg_types(), start=1) if ty == '&mut adlt::dlt::DltMessage']
+        q_params = [i for i, ty in enumerate(H.arg_types(), start=1) if ty.startswith('&mut std::collections::VecDeque<adlt::dlt::DltMessage')]
+        if not msg_params and not q_params:
+            continue
+        hcfg = CFG(H)
+        hE = ExprBuilder(hcfg, fold_named=True)
+        hloops = hcfg.loops()
+        # (a) the message parameter gets `lifecycle` stored on every path
+        for pi in msg_params:
+            a = t.args[pi - 1]
+            o = cfg.origin_of_operand(a) if a.place is not None else None
+            if o is None or o.l not in st.recv_locals:
+                continue
+            stores = [x.i for x in H.blocks if not x.cleanup and not any(x.i in lb for lb in hloops.values())
+                      for s_ in x.stmts if s_.k == 'assign' and effects.field_path(s_.place) == 'lifecycle' and s_.place.l == pi]
+            if stores and not any(e in hcfg.reachable_from(0, avoid=set(stores)) for e in hcfg.exits):
+                relabel_cur.add(blk.i)
+        # (b) the queue parameter is traversed as a whole, writing only `lifecycle`
+        for pi in q_params:
+            good = False
+            for hb in H.calls():
+                ht = hb.term
+                if ht.callee.path != 'std::iter::Iterator::next' or 'vec_deque::IterMut<' not in (ht.args[0].ty or ''):
+                    continue
+                ssrc = show(hE.operand(ht.args[0]))
+                inner = [hd for hd, lb in hloops.items() if hb.i in lb]
+                if not inner:
+                    continue
+                lb = hloops[min(inner, key=lambda h: len(hloops[h]))]
+                writes = [s_ for x in lb for s_ in H.blocks[x].stmts if s_.k == 'assign' and effects.field_path(s_.place) == 'lifecycle']
+                other = [s_ for x in lb for s_ in H.blocks[x].stmts if s_.k == 'assign' and effects.field_path(s_.place) not in (None, 'lifecycle')]
+                whole = re.search(r'VecDeque::iter_mut\(', ssrc) is not None and not re.search(r'Iterator::(skip|take|filter|step_by|skip_while|take_while|nth|peekable|zip)\b', ssrc)
+                exits = [(x, y) for x in lb for y in hcfg.succ[x] if y not in lb and H.blocks[y].term.k != 'unreachable']
+                only_none_exit = all(x in set(hcfg.succ[hb.i]) or x == hb.i for (x, y) in exits)
+                head_on_all_paths = not any(e in hcfg.reachable_from(0, avoid={hb.i}) for e in hcfg.exits)
+                if writes and not other and whole and only_none_exit and head_on_all_paths:
+                    good = True
+            if good:
+                relabel_q.add(blk.i)
     sinks = set(st.blocks_with('RECV_IN')) | set(st.blocks_with('SEND')) | set(st.blocks_with('STORE')) | set(cfg.exits)
 
     def block_effect(b, facts):
